@@ -40,6 +40,9 @@ def ops_for(kind, reduced=False):
     return ops
 
 
+LINK = b"\x00symlink:"
+
+
 class Lab:
     """one product + the pristine reference trees, inside one long-lived worker"""
 
@@ -71,7 +74,8 @@ class Lab:
         st = {"local": {}, "adjacent": {}}
         if self.cdir.exists():
             for p in self.cdir.iterdir():
-                st["local"][p.name] = p.read_bytes()
+                # an entry may be a symbolic link (possibly dangling): part of the state as such
+                st["local"][p.name] = LINK + os.readlink(p).encode() if p.is_symlink() else p.read_bytes()
         for k, v in self.prod.listing().items():
             if k.endswith(".index"):
                 st["adjacent"][k] = v
@@ -84,7 +88,10 @@ class Lab:
         if st["local"]:
             self.cdir.mkdir(parents=True, exist_ok=True)
             for k, v in st["local"].items():
-                (self.cdir / k).write_bytes(v)
+                if v.startswith(LINK):
+                    os.symlink(v[len(LINK) :].decode(), self.cdir / k)
+                else:
+                    (self.cdir / k).write_bytes(v)
         for k, v in st["adjacent"].items():
             self.prod.put(k, v)
 
@@ -102,7 +109,8 @@ class Lab:
         """execute op on the real code; -> list of (kind, detail) violations"""
         self.steps += 1
         bad = []
-        before_local = set(self.capture()["local"])
+        before = self.capture()
+        before_local = set(before["local"])
         lib = env.import_lib()
         wrote_expected = set()
         with cachelab.recording():
@@ -172,6 +180,12 @@ class Lab:
             bad.append(("product-modified", "the product files changed"))
             for k, v in self.files.items():
                 self.prod.put(k, v)
+        if op[0] in ("open", "open-shared", "open-noopts"):
+            # opening never modifies the product directory: that includes the index files lying next to the images
+            after_adj = self.capture()["adjacent"]
+            if after_adj != before["adjacent"]:
+                changed = sorted(k for k in set(after_adj) | set(before["adjacent"]) if after_adj.get(k) != before["adjacent"].get(k))
+                bad.append(("product-directory-modified", f"op {op} changed index files in the product directory: {changed[:3]}"))
         if op[0] in ("open", "open-shared", "open-noopts") and not (op[0] == "open" and op[2]):
             after_local = set(self.capture()["local"])
             if after_local != before_local:
